@@ -148,8 +148,8 @@ func (e *c13env) deepAccessors(rng *Rng, n int) {
 
 		d := c13descriptor(rng)
 		if rng.Chance(30) {
-			c13put(d, 44, 4, uint64(rng.U64()))
 			c13put(d, 48, 4, uint64(rng.U64()))
+			c13put(d, 52, 4, uint64(rng.U64()))
 		}
 		f = catch(func() { m = insts.VerifParseV5KernelDescriptor(d) })
 		ans = "fault:" + f
@@ -158,8 +158,8 @@ func (e *c13env) deepAccessors(rng *Rng, n int) {
 		}
 		r.Case("c13 kdacc "+hexb(d), ans)
 		r.Checked("deep-kd-normalised-fields")
-		// the loader's own slots: rsrc1 @44, rsrc2 @48, rewritten field by field
-		want := c13accWant(uint32(c13le(d, 44, 4)), c13normWant(uint32(c13le(d, 48, 4)), c13le(d, 8, 4) > 0))
+		// ABI slots: rsrc1 @48, rsrc2 @52, rewritten field by field
+		want := c13accWant(uint32(c13le(d, 48, 4)), c13normWant(uint32(c13le(d, 52, 4)), c13le(d, 8, 4) > 0))
 		if ans != want {
 			r.Failf("C13.deep.kd-normalised-fields", hexb(d), "methods %s ; field-level rewriting %s", ans, want)
 		}
